@@ -31,8 +31,49 @@ def describe(what, x):
     return x          # formatted_* yield str
 
 
+def fake_host_files(paths):
+    """host axis: the named absolute paths exist on this 'host' as regular text files (a valid code-table text); everything else
+    is untouched.  The paths are the absolute-path literals found in the library's source by the C18 check."""
+    import builtins
+    import io
+    import os
+    fake = set(paths)
+    content = '0x40c0004\tHOST_TABLE_NAME\n0x7ff0000\tHOST_ONLY_NAME\n0x3010090\tHOST_LOOKUP\n'
+    real_open, real_io_open, real_stat, real_lstat = builtins.open, io.open, os.stat, os.lstat
+
+    def key(pth):
+        try:
+            return os.fspath(pth) if not isinstance(pth, int) else None
+        except TypeError:
+            return None
+
+    def opener(real):
+        def f(file, mode='r', *a, **kw):
+            if key(file) in fake and 'w' not in mode and 'a' not in mode and '+' not in mode:
+                return io.BytesIO(content.encode()) if 'b' in mode else io.StringIO(content)
+            return real(file, mode, *a, **kw)
+        return f
+
+    def stat(real):
+        def f(pth, *a, **kw):
+            if key(pth) in fake:
+                return real(__file__)
+            return real(pth, *a, **kw)
+        return f
+    builtins.open, io.open, os.stat, os.lstat = opener(real_open), opener(real_io_open), stat(real_stat), stat(real_lstat)
+    os.path.exists = lambda pth: key(pth) in fake or _exists(pth)
+    os.path.isfile = lambda pth: key(pth) in fake or _isfile(pth)
+    os.access = lambda pth, *a, **kw: key(pth) in fake or _access(pth, *a, **kw)
+
+
+import os as _os
+_exists, _isfile, _access = _os.path.exists, _os.path.isfile, _os.access
+
+
 def main():
     req = json.load(sys.stdin)
+    if _os.environ.get('VERIF_HOST_FILES'):
+        fake_host_files(json.loads(_os.environ['VERIF_HOST_FILES']))
     out = []
     for case in req['cases']:
         data = bytes.fromhex(case['file'])
